@@ -56,6 +56,15 @@ func modes() []mode {
 		ms = append(ms, mode{name: fmt.Sprintf("backend-%d-json", st), backend: true, status: st, json: true})
 		ms = append(ms, mode{name: fmt.Sprintf("backend-%d-text", st), backend: true, status: st, json: false})
 	}
+	// every error status a backend (or something in front of it) can answer with: the whole 4xx and 5xx ranges, not only
+	// the codes net/http has names for (529 overloaded, 520-527/530 from CDNs, 599)
+	for st := 400; st <= 599; st++ {
+		switch st {
+		case 400, 404, 429, 500, 503:
+			continue
+		}
+		ms = append(ms, mode{name: fmt.Sprintf("backend-%d-json", st), backend: true, status: st, json: true})
+	}
 	for _, pad := range []int{12 << 10, 64 << 10} {
 		ms = append(ms, mode{name: fmt.Sprintf("backend-500-json-%dKiB", pad>>10), backend: true, status: 500, json: true, pad: pad})
 		ms = append(ms, mode{name: fmt.Sprintf("backend-503-text-%dKiB", pad>>10), backend: true, status: 503, json: false, pad: pad})
